@@ -214,7 +214,10 @@ func (l layout) region(i int) string {
 
 // build constructs the real rtp.Packet through the public API. Extensions go through
 // SetExtension on a header whose profile is preset, so that the library validates them.
-func (s *pktSpec) build(c *core.Ctx) (*rtp.Packet, bool) {
+func (s *pktSpec) build(c *core.Ctx) (*rtp.Packet, bool) { return s.buildx(c, false) }
+
+// buildx: with nilEmpty, zero-length extension values are handed to SetExtension as nil slices.
+func (s *pktSpec) buildx(c *core.Ctx, nilEmpty bool) (*rtp.Packet, bool) {
 	p := &rtp.Packet{}
 	p.Version = s.version
 	p.Marker = s.marker
@@ -239,7 +242,11 @@ func (s *pktSpec) build(c *core.Ctx) (*rtp.Packet, bool) {
 		for _, e := range s.exts {
 			e := e
 			var err error
-			if c.Guard("rtp.Header.SetExtension", func() { err = p.SetExtension(e.id, append([]byte{}, e.val...)) }) || err != nil {
+			val := append([]byte{}, e.val...)
+			if nilEmpty && len(val) == 0 {
+				val = nil
+			}
+			if c.Guard("rtp.Header.SetExtension", func() { err = p.SetExtension(e.id, val) }) || err != nil {
 				ok = false
 			}
 		}
